@@ -21,8 +21,18 @@ MANIFEST = {
     "level": "proof",
     "technique": "Coq proofs on a hand model of src/value/kind/** with an independent membership predicate + "
                  "differential correspondence vs Kind::{at_path,insert,remove,union,merge,is_superset}",
-    "text": "",
-    "note": "",
+    "text": "Closed Coq theorems over all values, kinds and paths, against an independent membership predicate: "
+            "union/merge(Union) contain every member of their operands (under union_compat), at_path/get of a member "
+            "is a member of the kind's view of the path (unconditionally without negative indices), is_superset implies "
+            "containment (no_exact_any), Kind::insert is sound on the ins_ok domain (fields, padding, coercion, in-range "
+            "negative indices), Kind::remove on field-terminated paths without compaction. Ten classes where the code "
+            "is unsound are refuted by vm_compute witnesses and recorded as known findings. The model is tied to the "
+            "code by running the six operations, the value-level CRUD and a Rust-side membership function on generated "
+            "(kind, value-from-kind, path) cases through both the implementation and the Gallina definitions.",
+    "note": "Partial: remove for index-terminated paths (remove_shift) and merge with Overwrite are checked by the "
+            "correspondence/oracle run only; fuel adequacy of the kind-recursive functions is not proved (theorems hold "
+            "for every fuel). Trusted: Coq kernel + vm_compute, the hand-written models Model/Kind.v, Model/KindCrud.v "
+            "(tied by correspondence), harness Kind codec, Python generator. No axioms.",
     "design_ref": "DESIGN.md section 5 C19",
 }
 
